@@ -17,7 +17,6 @@ The rules are stated over ROLES, not over the text of today's source:
   are whatever receives the elements of _solver_helper's triple, the tables of hydraulics.py are the positional parameters.
 """
 import ast
-import copy
 import re
 
 import networkx as nx
@@ -55,6 +54,108 @@ PURE_CALLS = {"int", "float", "len", "str", "bool", "abs", "min", "max", "isinst
 _COMPS = (ast.ListComp, ast.SetComp, ast.GeneratorExp, ast.DictComp)
 
 
+def _copy(n):
+    """deep copy of an AST by its fields only (the trees carry _parent back links, which copy.deepcopy would follow)."""
+    if isinstance(n, list):
+        return [_copy(x) for x in n]
+    if not isinstance(n, ast.AST):
+        return n
+    new = n.__class__()
+    for f in n._fields:
+        if hasattr(n, f):
+            setattr(new, f, _copy(getattr(n, f)))
+    for a in ("lineno", "col_offset", "end_lineno", "end_col_offset"):
+        if hasattr(n, a):
+            setattr(new, a, getattr(n, a))
+    return new
+
+
+def _copy_replace(n, target, repl):
+    if n is target:
+        return _copy(repl)
+    if isinstance(n, list):
+        return [_copy_replace(x, target, repl) for x in n]
+    if not isinstance(n, ast.AST):
+        return n
+    new = n.__class__()
+    for f in n._fields:
+        if hasattr(n, f):
+            setattr(new, f, _copy_replace(getattr(n, f), target, repl))
+    for a in ("lineno", "col_offset", "end_lineno", "end_col_offset"):
+        if hasattr(n, a):
+            setattr(new, a, getattr(n, a))
+    return new
+
+
+def _first_ifexp(e):
+    """the conditional expression that is evaluated first in e, provided nothing impure is evaluated before its test; else None."""
+    state = {"hit": None, "stop": False}
+
+    def visit(n):
+        if state["hit"] is not None or state["stop"]:
+            return
+        if isinstance(n, ast.IfExp):
+            state["hit"] = n
+            return
+        if isinstance(n, (ast.Lambda,) + _COMPS):
+            return
+        if isinstance(n, ast.BoolOp):
+            visit(n.values[0])
+            if state["hit"] is None and not all(Flow.pure(v) for v in n.values[1:]):
+                state["stop"] = True
+            return
+        for c in ast.iter_child_nodes(n):
+            visit(c)
+            if state["hit"] is not None or state["stop"]:
+                return
+        if isinstance(n, ast.Call) and not Flow.pure(n):
+            state["stop"] = True
+    visit(e)
+    return state["hit"]
+
+
+def lower_conditional_expressions(fn):
+    """copy of fn in which `x = a if c else b` / `return a if c else b` (also inside a tuple, a call argument...) is the
+    statement `if c: x = a  else: x = b`, so that conditional expressions and if statements have one CFG shape."""
+    new = _copy(fn)
+    for a in ("_rel", "_qual"):
+        if hasattr(fn, a):
+            setattr(new, a, getattr(fn, a))
+
+    def split(s, depth=0):
+        if depth > 6 or not isinstance(s, (ast.Assign, ast.AnnAssign, ast.AugAssign, ast.Return, ast.Expr)) or getattr(s, "value", None) is None:
+            return s
+        ie = _first_ifexp(s.value)
+        if ie is None:
+            return s
+        a, b = _copy_replace(s, ie, ie.body), _copy_replace(s, ie, ie.orelse)
+        r = ast.If(test=_copy(ie.test), body=[split(a, depth + 1)], orelse=[split(b, depth + 1)])
+        for at in ("lineno", "col_offset", "end_lineno", "end_col_offset"):
+            if hasattr(s, at):
+                setattr(r, at, getattr(s, at))
+        return r
+
+    def block(stmts):
+        out = []
+        for s in stmts:
+            if isinstance(s, (ast.FunctionDef, ast.AsyncFunctionDef, ast.ClassDef)):
+                out.append(s)
+                continue
+            for f in ("body", "orelse", "finalbody"):
+                b = getattr(s, f, None)
+                if isinstance(b, list) and b and isinstance(b[0], ast.stmt):
+                    setattr(s, f, block(b))
+            for h in getattr(s, "handlers", []) or []:
+                h.body = block(h.body)
+            out.append(split(s))
+        return out
+    new.body = block(new.body)
+    for n in ast.walk(new):
+        for c in ast.iter_child_nodes(n):
+            c._parent = n
+    return new
+
+
 def _target_names(t):
     if isinstance(t, ast.Name):
         return [t.id]
@@ -86,6 +187,8 @@ class Flow(object):
     """CFG of one function + reaching definitions + def-use resolution."""
 
     def __init__(self, fn):
+        self.source_fn = fn
+        fn = lower_conditional_expressions(fn)
         self.fn = fn
         self.g = CFG(fn)
         self.G = self.g.g
@@ -188,9 +291,9 @@ class Flow(object):
         k = self.kill[i]
         return self.gen[i] | frozenset(d for d in inset if d[0] not in k)
 
-    def propagate(self, seeds):
+    def propagate(self, seeds, graph=None):
         """forward may-analysis from the seed nodes (node -> IN set); only nodes reachable from the seeds get an entry."""
-        G = self.G
+        G = graph if graph is not None else self.G
         IN = {i: frozenset(s) for i, s in seeds.items()}
         work = list(seeds)
         while work:
@@ -209,11 +312,27 @@ class Flow(object):
         """reaching definitions restricted to the executions that pass `node` (what holds downstream of it)."""
         return self.propagate({node: self.IN.get(node, frozenset())})
 
-    def flow_from_edge(self, t, outcome):
+    def flow_from_edge(self, t, outcome, graph=None):
         m = {}
         for b in self.g.succ_on(t, outcome):
             m[b] = self._out(t, self.IN.get(t, frozenset()))
-        return self.propagate(m) if m else {}
+        return self.propagate(m, graph) if m else {}
+
+    def given(self, t, outcome):
+        """the CFG of the executions that left test t on `outcome`: a later test that implies exactly the same literals on one of its
+        edges (and whose inputs are not rewritten in between) leaves on that edge too, so its other edge is removed."""
+        want = {repr(l) for l in self.implied(t, outcome)}
+        g = self.G.copy()
+        g.remove_edges_from([(t, b) for b in self.g.succ_on(t, not outcome)])
+        if not want:
+            return g
+        for t2 in self.tests():
+            if t2 == t:
+                continue
+            for o2 in (True, False):
+                if {repr(l) for l in self.implied(t2, o2)} == want and self.stable(t, t2, self.rtest(t2)) and t2 in nx.descendants(self.G, t):
+                    g.remove_edges_from([(t2, b) for b in self.g.succ_on(t2, not o2)])
+        return g
 
     def reaching(self, name, at, rmap=None):
         """[(def node, value)] of the definitions of `name` that reach the entry of node `at`."""
@@ -323,7 +442,7 @@ class Flow(object):
                 n.body = self.visit(n.body)
                 self.bound.pop()
                 return n
-        return T().visit(copy.deepcopy(expr))
+        return T().visit(_copy(expr))
 
     def rnode(self, i):
         """resolved copies of the expressions evaluated at node i."""
@@ -545,14 +664,14 @@ def _status_of(fl, tup, at, rmap=None):
     return out
 
 
-def returned_values(fl, start=None, rmap=None):
+def returned_values(fl, start=None, rmap=None, graph=None):
     """[(return node, [Leaf])] for the Return nodes reachable from start (default: all)."""
     g = fl.g
     rets = g.nodes_where(lambda node, d: isinstance(node, ast.Return))
     if start is not None:
         reach = set()
         for s in start:
-            reach |= g.reachable(s)
+            reach |= g.reachable(s, graph)
         rets = [r for r in rets if r in reach]
     out = []
     for r in rets:
@@ -646,8 +765,6 @@ def run(repo, chk):
         o = decided_by(rt, set(sn), sstat.get("converged", 1), sstat.get("error", 0), other=enum_const)
         if o is not None:
             ftests[t] = (o, set().union(*sn.values()))
-    if not ftests:
-        raise AnchorError("run_sim: no test that is decided by the solver status alone")
 
     # trial counter: a local incremented by a positive constant inside the loop; trial test: decided by the counter against anything else
     def is_incr(node):
@@ -738,7 +855,7 @@ def run(repo, chk):
     for n in err_set + err_other:
         okd = n in err_set and fl.only_behind(n, fail_edges)
         chk.expect(okd, "R-C16-1", "results.error_code is set to error only on a failure branch (line %d)" % fl.line(n), loc(rs, g.node_ast(n)), found=g.label(n))
-    chk.floor("R-C16-1", 16)
+    chk.floor("R-C16-1", 18)
 
     # ---------------------------------------------------------------- R-C16-3 one row per time
     # the clock: what is advanced by the hydraulic timestep inside the loop
@@ -753,15 +870,12 @@ def run(repo, chk):
             if dotted(node.value.right) == tt:
                 return tt, node.value.left
         return None
-    adv = []
-    for n in g.nodes_where(lambda node, d: advance(node) is not None):
-        tt, e = advance(g.node_ast(n))
-        if n in inloop and head in g.reachable(n) and dotted(fl.resolve(e, n)) in hyd_attrs:
-            adv.append(n)
-    clocks = {advance(g.node_ast(n))[0] for n in adv}
+    steps = [n for n in g.nodes_where(lambda node, d: advance(node) is not None) if n in inloop and head in g.reachable(n)]
+    clocks = {advance(g.node_ast(n))[0] for n in steps if advance(g.node_ast(n))[0].split(".")[-1] == "sim_time"}
     if len(clocks) != 1:
-        raise AnchorError("run_sim: the simulation clock (the attribute advanced by %s in the loop) was not found: %s" % (sorted(hyd_attrs), sorted(clocks)))
+        raise AnchorError("run_sim: the simulation clock (the <wn>.sim_time attribute advanced in the loop) was not found: %s" % sorted(clocks))
     clock = clocks.pop()
+    adv = [n for n in steps if advance(g.node_ast(n))[0] == clock and dotted(fl.resolve(advance(g.node_ast(n))[1], n)) in hyd_attrs]
 
     upd = fl.calling("update_network_previous_values")
     upd_in_loop = [u for u in upd if u in inloop and head in g.reachable(u)]
@@ -846,7 +960,8 @@ def run(repo, chk):
         # residual norm below the tolerance attribute:  self.tol > <max-abs / norm of the residual>
         if not (l.kind == "gt" and l.sign and re.match(r"^self\.\w*tol\w*$", l.a)):
             return False
-        return all(lf.kind == "expr" and re.search(r"\b(abs|norm)\(", lf.text()) for lf in fs.origins(l.xb, t)) and bool(fs.origins(l.xb, t))
+        os_ = [lf for lf in fs.origins(l.xb, t) if lf.kind != "unbound"]      # (a flag-guarded variable looks possibly unbound to a path-insensitive analysis)
+        return bool(os_) and all(lf.kind == "expr" and re.search(r"\b(abs|norm)\(", lf.text()) for lf in os_)
 
     def is_empty(l):
         if l.kind == "eq" and l.sign:
@@ -886,7 +1001,7 @@ def run(repo, chk):
     chk.expect(loops and all(isinstance(l, ast.For) and isinstance(l.iter, ast.Call) and call_name(l.iter) == "range" for l in loops), "R-C16-2",
                "both Newton loops are range-bounded (maxiter, bt_maxiter)", loc(sv), found=[unparse(l).split("\n")[0] for l in loops])
     # leaving the outer loop by exhaustion leads to error returns only
-    outer = [h for l, h in gs.loop_heads.items() if not any(isinstance(p, (ast.For, ast.While)) for p in _ancestors(l, sv))]
+    outer = [h for l, h in gs.loop_heads.items() if not any(isinstance(p, (ast.For, ast.While)) for p in _ancestors(l, fs.fn))]
     after = [b for h in outer for b in gs.succ_on(h, False)]
     exh = returned_values(fs, start=after) if after else []
     ok_exh = bool(exh)
@@ -962,18 +1077,19 @@ def run(repo, chk):
         raise ExtractError("_solver_helper: the call that unpacks fsolve's (x, infodict, ier, mesg) was not found")
     for f in sorted(fnodes):
         rmap = fh.flow_from(f)
-        convs = []
+        convs = []       # the nodes at which a `converged` that can be returned downstream of the fsolve call is produced
         for r, leaves in returned_values(fh, start=[f], rmap=rmap):
             for lf in leaves:
-                if lf.kind == "expr" and isinstance(lf.ast, ast.Tuple) and len(lf.ast.elts) == 3 and "converged" in _status_of(fh, lf.ast, lf.node, rmap):
-                    convs.append(lf.node)
+                if lf.kind == "expr" and isinstance(lf.ast, ast.Tuple) and len(lf.ast.elts) == 3:
+                    convs.extend(m.node for m in fh.origins(lf.ast.elts[0], lf.node, rmap) if m.kind == "expr" and (dotted(m.ast) or "").endswith("SolverStatus.converged"))
         okf = bool(convs) and all(fh.only_behind(n, ok_edges, src=f) for n in convs)
         chk.expect(okf, "R-C16-2", "fsolve's ier != 1 is mapped to SolverStatus.error", loc(sh, gh.node_ast(f)),
                    "fsolve reports failure through ier in 2..5; `converged` may only be returned on the edge where ier == 1 holds", found=[gh.label(n) for n in convs])
     for t, o in bad_edges:
-        rmap = fh.flow_from_edge(t, o)
+        gv = fh.given(t, o)
+        rmap = fh.flow_from_edge(t, o, gv)
         sts = set()
-        for r, leaves in returned_values(fh, start=gh.succ_on(t, o), rmap=rmap):
+        for r, leaves in returned_values(fh, start=gh.succ_on(t, o), rmap=rmap, graph=gv):
             for lf in leaves:
                 sts |= leaf_status(fh, lf, rmap)
         chk.expect(sts == {"error"}, "R-C16-2", "fsolve's ier != 1 is mapped to SolverStatus.error (edge at line %d)" % fh.line(t), loc(sh, gh.node_ast(t)), found=sorted(sts))
@@ -1134,7 +1250,7 @@ def run(repo, chk):
     # (c) NewtonSolver.solve: a loop variable used after its loop is bound even when the loop does not run (MAXITER = 0)
     n_lv = 0
     for lp, h in sorted(gs.loop_heads.items(), key=lambda kv: kv[1]):
-        if not isinstance(lp, ast.For) or any(isinstance(p, (ast.For, ast.While)) for p in _ancestors(lp, sv)):
+        if not isinstance(lp, ast.For) or any(isinstance(p, (ast.For, ast.While)) for p in _ancestors(lp, fs.fn)):
             continue
         body = {id(x) for x in ast.walk(lp)}
         for v in _target_names(lp.target):
@@ -1207,5 +1323,148 @@ WITNESSES = [
     dict(name="tank-leak-not-saved", file=HYD, old="        node_res['pressure'][name].append(node.head - node.elevation)\n        node_res['leak_demand'][name].append(node.leak_demand)\n\n    for name, node in wn.reservoirs():",
          new="        node_res['pressure'][name].append(node.head - node.elevation)\n        if node.leak_status:\n            node_res['leak_demand'][name].append(node.leak_demand)\n\n    for name, node in wn.reservoirs():", rule="R-C16-4"),
     dict(name="columns-from-other-list", file=HYD, old="index=results.time,\n                                     columns=node_names)", new="index=results.time,\n                                     columns=wn.node_name_list)", rule="R-C16-4"),
+    # ---- further mutations (each must fire)
+    dict(name="raise-removed", file=CORE, old="                    raise RuntimeError('Simulation did not converge at time ' + self._get_time() + '. ' + mesg)\n", new="", rule="R-C16-1"),
+    dict(name="trial-limit-raise-unconditional", file=CORE, old="                    if convergence_error:\n", new="                    if convergence_error or trial:\n", rule="R-C16-1"),
+    dict(name="ier-truthy-is-converged", file=CORE, old="        if ier != 1:\n            sol = SolverStatus.error, mesg, None", new="        if not ier:\n            sol = SolverStatus.error, mesg, None", rule="R-C16-2"),
+    dict(name="scipy-exception-reported-converged", file=CORE, old="        except:\n            sol = SolverStatus.error, '', None", new="        except:\n            sol = SolverStatus.converged, '', None", rule="R-C16-2"),
+    dict(name="status-variable-unbound-on-a-path", file=CORE, old="            sol = SolverStatus.converged, mesg, None\n", new="            pass\n", rule="R-C16-2"),
+    dict(name="appended-time-not-int", file=CORE, old="                results.time.append(int(self._wn.sim_time))\n            wntr.sim.hydraulics.update_network_previous_values", new="                results.time.append(self._wn.sim_time)\n            wntr.sim.hydraulics.update_network_previous_values", rule="R-C16-3"),
+    dict(name="stale-clock-alias-appended", file=CORE, old="            resolve = False\n            if not isinstance(self._report_timestep, str):  # same test",
+         new="            resolve = False\n            stamp = self._wn.sim_time\n            self._wn.sim_time = self._wn.sim_time + 0\n            if not isinstance(self._report_timestep, str):  # same test",
+         also=[("                    results.time.append(int(self._wn.sim_time))\n            elif", "                    results.time.append(int(stamp))\n            elif")], rule="R-C16-3"),
+    dict(name="grid-test-inverted", file=CORE, old="                if self._wn.sim_time % self._report_timestep == 0:", new="                if self._wn.sim_time % self._report_timestep != 0:", rule="R-C16-3"),
+    dict(name="duration-test-inverted", file=CORE, old="            if self._wn.sim_time > self._wn.options.time.duration:\n                break", new="            if self._wn.sim_time <= self._wn.options.time.duration:\n                break", rule="R-C16-5"),
+    dict(name="advance-by-report-step", file=CORE, old="            self._wn.sim_time += self._hydraulic_timestep\n", new="            self._wn.sim_time += self._report_timestep\n", rule="R-C16-5"),
+    dict(name="status-test-on-other-element", file=CORE, old="            if solver_status == 0:\n                if self._convergence_error:", new="            if iter_count == 0:\n                if self._convergence_error:", rule="R-C16-1"),
+    dict(name="link-tables-over-nodes", file=HYD, old="    link_res['setting'] = OrderedDict((name, list()) for name, obj in wn.links())", new="    link_res['setting'] = OrderedDict((name, list()) for name, obj in wn.nodes())", rule="R-C16-4"),
+    dict(name="fstring-spec-on-count", file=CORE, old="trial, str(iter_count), num_isolated_junctions, num_isolated_links))",
+         new="trial, str(iter_count), num_isolated_junctions, num_isolated_links) + f'{iter_count:<4}')", rule="R-C16-6"),
+    # ---- behaviour-preserving rewrites (each must stay quiet)
+    dict(name="P-extract-record-solved-step", file=CORE, silent=True,
+         old="            if not isinstance(self._report_timestep, str):  # same test as in _setup_sim_options (numpy integers are numbers too)\n"
+             "                if self._wn.sim_time % self._report_timestep == 0:\n"
+             "                    wntr.sim.hydraulics.save_results(self._wn, node_res, link_res)\n"
+             "                    if len(results.time) > 0 and int(self._wn.sim_time) == results.time[-1]:\n"
+             "                        if int(self._wn.sim_time) != self._wn.sim_time:\n"
+             "                            raise RuntimeError('Time steps increments smaller than 1 second are forbidden.'+\n"
+             "                                               ' Keep time steps as an integer number of seconds.')\n"
+             "                        else:\n"
+             "                            raise RuntimeError('Simulation already solved this timestep')\n"
+             "                    results.time.append(int(self._wn.sim_time))\n"
+             "            elif self._report_timestep.upper() == 'ALL':\n"
+             "                wntr.sim.hydraulics.save_results(self._wn, node_res, link_res)\n"
+             "                if len(results.time) > 0 and int(self._wn.sim_time) == results.time[-1]:\n"
+             "                    raise RuntimeError('Simulation already solved this timestep')\n"
+             "                results.time.append(int(self._wn.sim_time))\n",
+         new="            self._record_solved_step(results, node_res, link_res)\n",
+         also=[("    def _initialize_name_id_maps(self):\n",
+                "    def _record_solved_step(self, out, node_tables, link_tables):\n"
+                "        now = self._wn.sim_time\n"
+                "        if not isinstance(self._report_timestep, str):  # same test as in _setup_sim_options\n"
+                "            if now % self._report_timestep != 0:\n"
+                "                return\n"
+                "            wntr.sim.hydraulics.save_results(self._wn, node_tables, link_tables)\n"
+                "            if len(out.time) > 0 and int(now) == out.time[-1]:\n"
+                "                if int(now) != now:\n"
+                "                    raise RuntimeError('Time steps increments smaller than 1 second are forbidden.')\n"
+                "                raise RuntimeError('Simulation already solved this timestep')\n"
+                "            out.time.append(int(now))\n"
+                "        elif self._report_timestep.upper() == 'ALL':\n"
+                "            wntr.sim.hydraulics.save_results(self._wn, node_tables, link_tables)\n"
+                "            if len(out.time) > 0 and int(now) == out.time[-1]:\n"
+                "                raise RuntimeError('Simulation already solved this timestep')\n"
+                "            out.time.append(int(now))\n\n"
+                "    def _initialize_name_id_maps(self):\n")]),
+    dict(name="P-solve-with-backup-and-hoisted-message", file=CORE, silent=True,
+         old="            solver_status, mesg, iter_count = _solver_helper(self._model, self._solver, self._solver_options)\n"
+             "            if solver_status == 0 and self._backup_solver is not None:\n"
+             "                solver_status, mesg, iter_count = _solver_helper(self._model, self._backup_solver, self._backup_solver_options)\n",
+         new="            solver_status, mesg, iter_count = self._solve_with_backup()\n",
+         also=[("    def run_sim(self, solver=NewtonSolver,",
+                "    def _solve_with_backup(self):\n"
+                "        status, text, count = _solver_helper(self._model, self._solver, self._solver_options)\n"
+                "        if status == 0 and self._backup_solver is not None:\n"
+                "            status, text, count = _solver_helper(self._model, self._backup_solver, self._backup_solver_options)\n"
+                "        return status, text, count\n\n"
+                "    def run_sim(self, solver=NewtonSolver,"),
+               ("                warnings.warn('Simulation did not converge at time ' + self._get_time() + '. ' + mesg)\n"
+                "                logger.warning('Simulation did not converge at time ' + self._get_time() + '. ' + mesg)\n",
+                "                failure_msg = 'Simulation did not converge at time ' + self._get_time() + '. ' + mesg\n"
+                "                warnings.warn(failure_msg)\n"
+                "                logger.warning(failure_msg)\n")]),
+    dict(name="P-status-test-as-not", file=CORE, silent=True, old="            if solver_status == 0:\n                if self._convergence_error:", new="            if not solver_status:\n                if self._convergence_error:"),
+    dict(name="P-status-test-named-and-enum", file=CORE, silent=True, old="            if solver_status == 0:\n                if self._convergence_error:",
+         new="            failed = solver_status == SolverStatus.error\n            if failed:\n                if self._convergence_error:"),
+    dict(name="P-trial-test-negated", file=CORE, silent=True, old="                if trial > max_trials:\n", new="                if not trial <= max_trials:\n"),
+    dict(name="P-trial-limit-as-early-continue", file=CORE, silent=True,
+         old="                if trial > max_trials:\n"
+             "                    if convergence_error:\n"
+             "                        logger.error('Exceeded maximum number of trials at time ' + self._get_time() + '. ') \n"
+             "                        raise RuntimeError('Exceeded maximum number of trials at time ' + self._get_time() + '. ' ) \n"
+             "                    results.error_code = wntr.sim.results.ResultsStatus.error\n"
+             "                    warnings.warn('Exceeded maximum number of trials at time ' + self._get_time() + '. ') \n"
+             "                    logger.warning('Exceeded maximum number of trials at time ' + self._get_time() + '. ' ) \n"
+             "                    break\n"
+             "                continue\n",
+         new="                if trial <= max_trials:\n"
+             "                    continue\n"
+             "                text = 'Exceeded maximum number of trials at time ' + self._get_time() + '. '\n"
+             "                if not convergence_error:\n"
+             "                    results.error_code = wntr.sim.results.ResultsStatus.error\n"
+             "                    warnings.warn(text)\n"
+             "                    logger.warning(text)\n"
+             "                    break\n"
+             "                logger.error(text)\n"
+             "                raise RuntimeError(text)\n"),
+    dict(name="P-duration-test-negated", file=CORE, silent=True, old="            if self._wn.sim_time > self._wn.options.time.duration:\n                break",
+         new="            finished = not (self._wn.sim_time <= self._wn.options.time.duration)\n            if finished:\n                break"),
+    dict(name="P-advance-written-out", file=CORE, silent=True, old="            self._wn.sim_time += self._hydraulic_timestep\n", new="            dt = self._hydraulic_timestep\n            self._wn.sim_time = self._wn.sim_time + dt\n"),
+    dict(name="P-append-through-alias", file=CORE, silent=True, old="                results.time.append(int(self._wn.sim_time))\n            wntr.sim.hydraulics.update_network_previous_values",
+         new="                times = results.time\n                times.append(int(self._wn.sim_time))\n            wntr.sim.hydraulics.update_network_previous_values"),
+    dict(name="P-solver-helper-early-returns", file=CORE, silent=True,
+         old="    if solver is NewtonSolver:\n"
+             "        _solver = NewtonSolver(solver_options)\n"
+             "        sol = _solver.solve(model)\n"
+             "    elif solver is scipy.optimize.fsolve:\n"
+             "        x, infodict, ier, mesg = solver(model.evaluate_residuals, model.get_x(), **solver_options)\n"
+             "        if ier != 1:\n"
+             "            sol = SolverStatus.error, mesg, None\n"
+             "        else:\n"
+             "            model.load_var_values_from_x(x)\n"
+             "            sol = SolverStatus.converged, mesg, None\n"
+             "    elif solver in {",
+         new="    if solver is NewtonSolver:\n"
+             "        newton = NewtonSolver(solver_options)\n"
+             "        return newton.solve(model)\n"
+             "    if solver is scipy.optimize.fsolve:\n"
+             "        out = solver(model.evaluate_residuals, model.get_x(), **solver_options)\n"
+             "        flag = out[2]\n"
+             "        if flag == 1:\n"
+             "            model.load_var_values_from_x(out[0])\n"
+             "        status = SolverStatus.converged if flag == 1 else SolverStatus.error\n"
+             "        return status, out[3], None\n"
+             "    if solver in {",
+         also=[("            sol = SolverStatus.converged, '', None\n        except:\n            sol = SolverStatus.error, '', None\n    else:\n        raise ValueError('Solver not recognized.')\n    return sol\n",
+                "            return SolverStatus.converged, '', None\n        except:\n            return SolverStatus.error, '', None\n    raise ValueError('Solver not recognized.')\n")]),
+    dict(name="P-result-keys-from-tuples-and-table-helper", file=HYD, silent=True,
+         old="    node_res['head'] = OrderedDict((name, list()) for name, obj in wn.nodes())\n"
+             "    node_res['demand'] = OrderedDict((name, list()) for name, obj in wn.nodes())\n"
+             "    node_res['pressure'] = OrderedDict((name, list()) for name, obj in wn.nodes())\n"
+             "    node_res['leak_demand'] = OrderedDict((name, list()) for name, obj in wn.nodes())\n",
+         new="    for key in _NODE_RESULT_KEYS:\n"
+             "        node_res[key] = OrderedDict((name, list()) for name, obj in wn.nodes())\n",
+         also=[("def initialize_results_dict(wn):\n", "_NODE_RESULT_KEYS = ('head', 'demand', 'pressure', 'leak_demand')\n\n\ndef initialize_results_dict(wn):\n"),
+               ("        link_res[key] = pd.DataFrame(data=np.array([link_res[key][name] for name in link_names]).transpose(), index=results.time,\n"
+                "                                            columns=link_names)\n",
+                "        link_res[key] = _results_table(link_res[key], link_names, results.time)\n"),
+               ("def get_results(wn, results, node_res, link_res):\n",
+                "def _results_table(series_by_name, names, times):\n"
+                "    return pd.DataFrame(data=np.array([series_by_name[name] for name in names]).transpose(), index=times,\n"
+                "                        columns=names)\n\n\n"
+                "def get_results(wn, results, node_res, link_res):\n")]),
+    dict(name="P-solve-status-through-a-variable", file=SOLV, silent=True,
+         old="        return (\n            SolverStatus.error,\n            \"Reached maximum number of iterations: \"",
+         new="        failed = SolverStatus.error\n        return (\n            failed,\n            \"Reached maximum number of iterations: \""),
     dict(name="no-advance-on-resolve-false", file=CORE, old="            self._wn.sim_time += self._hydraulic_timestep\n", new="            if not resolve or True:\n                pass\n            self._wn.sim_time += self._hydraulic_timestep\n", silent=True),
 ]
